@@ -249,14 +249,18 @@ def cleanUp (c : Cfg) (s : S) : S :=
 def sendHijack (s : S) (code : Nat) (body : Bool) : S :=
   { s with respCode := code, statusVar := some code, resp := some ⟨body, false⟩, direct := true }
 
+/-- the body of `downStream.cleanStream()` after the CAS on `downstreamCleaned` was won: reset the upstream request
+unless its processing is done (or one-way), clean up timers and the retry slot, count down the active gauge, write
+the access log -/
+def cleanBody (c : Cfg) (s : S) : S :=
+  let doReset := s.up.isSome && !s.procDone && !c.oneway
+  let s1 := { s with cleaned := true, procDone := s.procDone || doReset }
+  let s2 := if doReset then resetUpstream c s1 else s1
+  let s3 := cleanUp c s2
+  { s3 with downActive := s3.downActive - 1, trace := s3.trace ++ [.log s3.respCode s3.flags] }
+
 /-- `downStream.cleanStream()` -/
-def cleanStream (c : Cfg) (s : S) : S :=
-  if s.cleaned then s else
-  let s := { s with cleaned := true }
-  let s := if s.up.isSome && !s.procDone && !c.oneway then resetUpstream c { s with procDone := true } else s
-  let s := cleanUp c s
-  let s := { s with downActive := s.downActive - 1 }
-  emit s (.log s.respCode s.flags)
+def cleanStream (c : Cfg) (s : S) : S := if s.cleaned then s else cleanBody c s
 
 /-- `downStream.ResetStream(reason)` (reached from processError when the downstream was reset) -/
 def dsResetStream (c : Cfg) (s : S) : S :=
